@@ -1061,7 +1061,10 @@ func (fc *funcContext) translateBuiltin(name string, sig *types.Signature, args 
 			return fc.formatExpr("(%e ? %e.size : 0)", args[0], args[0])
 		case *types.Chan:
 			return fc.formatExpr("%e.$buffer.length", args[0])
-		// length of array is constant
+		case *types.Array:
+			// The length of an array is constant, but the operand is still evaluated
+			// when it contains function calls or channel receives.
+			return fc.formatExpr("(%e, %d)", args[0], argType.Len())
 		default:
 			panic(fmt.Sprintf("Unhandled len type: %T\n", argType))
 		}
@@ -1071,7 +1074,10 @@ func (fc *funcContext) translateBuiltin(name string, sig *types.Signature, args 
 			return fc.formatExpr("%e.$capacity", args[0])
 		case *types.Pointer:
 			return fc.formatExpr("(%e, %d)", args[0], argType.Elem().(*types.Array).Len())
-		// capacity of array is constant
+		case *types.Array:
+			// The capacity of an array is constant, but the operand is still evaluated
+			// when it contains function calls or channel receives.
+			return fc.formatExpr("(%e, %d)", args[0], argType.Len())
 		default:
 			panic(fmt.Sprintf("Unhandled cap type: %T\n", argType))
 		}
